@@ -379,15 +379,18 @@ fn gen(rng: &mut Rng, i: u64) -> String {
 		b.poke(slot, w32(slot_val));
 		let ncb = match rng.below(6) { 0 => 0, 1 => 1, 2 => rng.range(7, 16) as u32, _ => rng.range(2, 6) as u32 };
 		let cb_al = if rng.chance(1, 10) { 4 } else { 8 };
-		let cbs = b.ralloc(vs * (ncb + 1), cb_al);
+		// one TLS directory in six keeps its callback array FLUSH against the end of .rdata: the zero terminator is the last
+		// pointer-sized word of the section's stored bytes (file) - a sentinel scan must still see it
+		let flush = rng.chance(1, 6);
+		let cbs = if flush { RDATA_VA + RDATA_SZ - vs * (ncb + 1) } else { b.ralloc(vs * (ncb + 1), cb_al) };
 		let mut cb = Vec::new();
 		for k in 0..ncb { let v = b.va(TEXT_VA + 0x10 * (k + 1)); cb.extend(b.vabytes(v)); }
-		let term = rng.chance(7, 8);
+		let term = flush || rng.chance(7, 8);
 		if term { cb.extend(b.vabytes(0)); } else { let v = b.va(TEXT_VA); cb.extend(b.vabytes(v)); }
 		b.poke(cbs, cb);
 		let t_al = if rng.chance(1, 12) { 4 } else { 8 };
 		let t = b.ralloc(if pe64 { 40 } else { 24 }, t_al);
-		if !malformed && slot_al == 4 && cb_al == 8 && t_al == 8 && term && al8 {
+		if !malformed && slot_al == 4 && cb_al == 8 && t_al == 8 && term && al8 && !flush { // (a flush array may be overwritten by a late unwind record: no expectation then, the model comparison stands)
 			tx = format!("{}:{}:{}", rawlen, slot_val, ncb);
 		}
 		let (mut s, mut e, mut ix, mut c) = (b.va(raw), b.va(raw + rawlen), b.va(slot), b.va(cbs));
